@@ -267,6 +267,55 @@ theorem sub_group_iterate_ignored (O : Oracle) (gi k : Nat) (l : Leaf) (it : Boo
     rw [forEach_congr (fun ddd _ h => hd ddd h)]
   simp only [hg]
 
+/-! ## Groups are identified by position, never by name -/
+
+/-- `Group(name=…)` is a label for the profiling output only.  Two programs that differ only in
+the names of their groups — none, unique ones, or the SAME name on several top-level groups and/or
+sub-groups — make exactly the same calls, generated code and documented order alike: every
+`condition` / `pre` / `post` in a trace carries the position (`GId`: `self.groups[i]`,
+`self.groups[i].data[k]`) of the group that owns it, and that position is all the model ever
+looks at. -/
+theorem group_name_irrelevant (O : Oracle) (fuel : Nat) (P Q : Program)
+    (hPQ : P.eraseNames = Q.eraseNames) :
+    implTrace O fuel P = implTrace O fuel Q ∧ specTrace O P = specTrace O Q := by
+  unfold implTrace specTrace
+  rw [← implRun_eraseNames O fuel P, ← implRun_eraseNames O fuel Q,
+      ← specRun_eraseNames O P, ← specRun_eraseNames O Q, hPQ]
+  exact ⟨rfl, rfl⟩
+
+/-- the same from any starting history, in the form "names can be dropped" -/
+theorem group_names_can_be_erased (O : Oracle) (fuel : Nat) (P : Program) (h : Hist) :
+    implRun O fuel P.eraseNames h = implRun O fuel P h ∧
+    specRun O P.eraseNames h = specRun O P h :=
+  ⟨implRun_eraseNames O fuel P h, specRun_eraseNames O P h⟩
+
+/-- names play no part in well-formedness either -/
+theorem eraseNames_wf (P : Program) : P.eraseNames.WF ↔ P.WF := by
+  cases P with
+  | flat eqs => exact Iff.rfl
+  | groups gs =>
+    have key : ∀ g : Top, g.eraseNames.WF ↔ g.WF := by
+      intro g
+      cases g with
+      | leaf l => exact Iff.rfl
+      | parent a subs =>
+        show (a.eraseName.iterOK ∧ ∀ l ∈ subs.map Leaf.eraseNames, l.WF) ↔
+          (a.iterOK ∧ ∀ l ∈ subs, l.WF)
+        constructor
+        · rintro ⟨h1, h2⟩
+          exact ⟨h1, fun l hl => h2 l.eraseNames (List.mem_map_of_mem hl)⟩
+        · rintro ⟨h1, h2⟩
+          refine ⟨h1, fun l hl => ?_⟩
+          obtain ⟨l', hl', rfl⟩ := List.mem_map.mp hl
+          exact h2 l' hl'
+    show (∀ g ∈ gs.map Top.eraseNames, g.WF) ↔ (∀ g ∈ gs, g.WF)
+    constructor
+    · intro h g hg
+      exact (key g).mp (h g.eraseNames (List.mem_map_of_mem hg))
+    · intro h g hg
+      obtain ⟨g', hg', rfl⟩ := List.mem_map.mp hg
+      exact (key g').mpr (h g' hg')
+
 /-- A top-level group without equations is skipped entirely, callables included
 (`% if len(group.data) > 0`) — the point excluded by `Program.WF`. -/
 theorem empty_top_group_is_skipped (O : Oracle) (fuel gi : Nat) (a : Attrs) (h : Hist) :
@@ -315,6 +364,22 @@ example : Example.prog.WF := by decide
 example : implTrace Example.oracle 5 Example.prog = specTrace Example.oracle Example.prog ∧
     (implTrace Example.oracle 5 Example.prog).length = 87 := by
   decide +kernel
+
+/-- groups that share a name keep their own callbacks: in `Example.sameNames` two top-level groups
+are both called `density` and two sub-groups both `correct`; with the first `density` condition
+False and the second True (first `correct` True, second False) the first group is skipped, the
+second runs between ITS pre and post, sub-group 2.0 runs, 2.1 is skipped -/
+example : implTrace Example.posOracle 1 Example.sameNames =
+    [.cond ⟨0, none⟩ false,
+     .cond ⟨1, none⟩ true, .pre ⟨1, none⟩, .init 2 0 0, .post ⟨1, none⟩,
+     .pre ⟨2, none⟩,
+     .cond ⟨2, some 0⟩ true, .pre ⟨2, some 0⟩, .init 3 0 0, .post ⟨2, some 0⟩,
+     .cond ⟨2, some 1⟩ false,
+     .post ⟨2, none⟩,
+     .cond ⟨3, some 0⟩ true, .init 5 0 0, .post ⟨3, some 0⟩] ∧
+    specTrace Example.posOracle Example.sameNames
+      = implTrace Example.posOracle 1 Example.sameNames ∧
+    Example.sameNames.WF ∧ Example.sameNames.eraseNames ≠ Example.sameNames := by decide +kernel
 
 /-- `Program.WF` cannot be dropped: a top-level group without equations but with `pre` -/
 example : implTrace Example.oracle 1 Example.emptyWithPre
